@@ -152,20 +152,6 @@ Proof.
   inversion HP; subst. constructor; eauto.
 Qed.
 
-Lemma attained_init : forall proto, existsb sized proto = true ->
-  attained 0 proto (map (fun _ => []) proto).
-Proof.
-  induction proto as [|t ts IH]; cbn [existsb map attained]; intros H; [discriminate|].
-  destruct (sized t) eqn:E; [left; split; reflexivity|right; apply IH; exact H].
-Qed.
-
-Lemma sized_exists : forall proto, existsb sized proto = true ->
-  Forall (fun t => sized t = false) proto -> False.
-Proof.
-  induction proto as [|t ts IH]; cbn [existsb]; intros H HF; [discriminate|].
-  inversion HF as [|? ? Ht HF']; subst. rewrite Ht in H. apply IH; assumption.
-Qed.
-
 (** * The iteration *)
 
 Section Iter.
@@ -181,43 +167,46 @@ Definition st_inv (k : nat) (rest : layout) (off : N) (q : qr) : Prop :=
   exists ss qs, q = mkQr proto ss qs /\
     cur log off (section_body rest ++ post) /\ off mod 4 = 0 /\
     Forall (fun p => packet_ok n p = true) rest /\
-    inv5 true k proto cols (futs_of n rest) ss qs /\
-    attained (qr_available q) proto qs.
+    inv5 true k proto cols (futs_of n rest) ss qs.
 
 Lemma advance_ok k p rest off q : st_inv k (p :: rest) off q ->
   exists off' q', runs log (qr_advance q) off off' q' /\ st_inv k rest off' q'.
 Proof.
-  intros (ss & qs & -> & Hc & Hoff & Hok & Hi & Hatt).
+  intros (ss & qs & -> & Hc & Hoff & Hok & Hi).
   inversion Hok as [|? ? Hp Hrest]; subst.
   rewrite section_body_cons, <- app_assoc in Hc.
-  destruct (scene_ok_spec _ _ Hscene) as (_ & _ & Hex).
+  destruct (scene_ok_spec _ _ Hscene) as (Hty & _ & Hex).
   destruct p as [chunks|total|total].
   - destruct (packet_ok_data _ _ Hp) as (Hn & _ & _ & _ & Hbok).
     destruct (inv5_append _ _ _ _ _ _ _ Hi chunks _ (futs_data n chunks rest Hn) Hbok)
       as (ss1 & HF & Hi1).
-    destruct (inv5_parse _ _ _ _ _ _ Hi1 None) as (acc' & Hm & Hnone & _ & Hparse).
-    destruct acc' as [m|].
-    2:{ exfalso. destruct (Hnone eq_refl) as [_ HFz]. apply (sized_exists proto Hex HFz). }
-    destruct (Hparse m) as (ss2 & qs2 & Hp2 & Hi2 & Hz2 & Hatt2).
-    destruct (Hatt2 m eq_refl) as [Hsg [Hor|Hor]]; [discriminate|].
-    pose proof (avail_char proto ss2 qs2 m (ge_all _ _ _ Hsg Hz2) Hor) as Hav.
+    destruct (inv5_parse _ _ _ _ _ _ Hi1) as (ss2 & qs2 & Hp2 & Hi2).
+    assert (Hhs : has_sized proto = true) by (rewrite (has_sized_sized proto Hty); exact Hex).
     destruct (advance_data log off (mkQr proto ss qs) chunks (section_body rest ++ post)
-                ss1 m ss2 qs2 Hoff Hp Hc HF Hm Hp2) as [Hr Hc'].
+                ss1 ss2 qs2 Hoff Hp Hc HF Hhs Hp2) as [Hr Hc'].
     cbn [q_proto] in Hr.
     exists (off + data_packet_len chunks), (mkQr proto ss2 qs2). split; [exact Hr|].
     exists ss2, qs2. split; [reflexivity|]. split; [exact Hc'|].
-    split; [pose proof (data_packet_len_mod4 chunks); lia|]. split; [exact Hrest|].
-    split; [exact Hi2|]. rewrite Hav. exact Hor.
+    split; [pose proof (data_packet_len_mod4 chunks); lia|]. split; [exact Hrest|exact Hi2].
   - destruct (advance_index log off (mkQr proto ss qs) total _ Hoff Hp Hc) as [Hr Hc'].
     exists (off + total), (mkQr proto ss qs). split; [exact Hr|].
     exists ss, qs. split; [reflexivity|]. split; [exact Hc'|].
-    split; [apply packet_ok_index in Hp; lia|]. split; [exact Hrest|].
-    split; [exact Hi|exact Hatt].
+    split; [apply packet_ok_index in Hp; lia|]. split; [exact Hrest|exact Hi].
   - destruct (advance_ignored log off (mkQr proto ss qs) total _ Hoff Hp Hc) as [Hr Hc'].
     exists (off + total), (mkQr proto ss qs). split; [exact Hr|].
     exists ss, qs. split; [reflexivity|]. split; [exact Hc'|].
-    split; [apply packet_ok_ignored in Hp; lia|]. split; [exact Hrest|].
-    split; [exact Hi|exact Hatt].
+    split; [apply packet_ok_ignored in Hp; lia|]. split; [exact Hrest|exact Hi].
+Qed.
+
+(** [available] is a lower bound of the queues of the records of non-zero
+    width and the length of one of them. *)
+Lemma st_avail k rest off q : st_inv k rest off q ->
+  sized_ge (qr_available q) proto (q_queues q) /\ attained (qr_available q) proto (q_queues q).
+Proof.
+  intros (ss & qs & -> & _ & _ & _ & Hi). cbn [q_queues].
+  destruct (scene_ok_spec _ _ Hscene) as (Hty & _ & Hex).
+  destruct (inv5_length _ _ _ _ _ _ _ Hi) as (_ & _ & _ & Hl).
+  apply avail_spec; assumption.
 Qed.
 
 Lemma cols_lt k : (k < length points)%nat -> Forall (fun c => (k < length c)%nat) cols.
@@ -233,7 +222,8 @@ Lemma refill_ok : forall rest fuel k off q,
 Proof.
   induction rest as [|p rest IH]; intros fuel k off q Hst Hk Hfuel;
     (destruct fuel as [|f]; [lia|]); cbn [refill]; destruct (qr_available q <? 1) eqn:E.
-  - exfalso. destruct Hst as (ss & qs & -> & _ & _ & _ & Hi & Hatt).
+  - exfalso. destruct (st_avail _ _ _ _ Hst) as [_ Hatt].
+    destruct Hst as (ss & qs & -> & _ & _ & _ & Hi). cbn [q_queues] in Hatt.
     pose proof (inv5_progress _ _ _ _ _ _ Hi (futs_nil n) (cols_lt k Hk)) as HF.
     apply (attained_nonzero _ _ _ Hatt HF). lia.
   - exists [], off, q. split; [apply runs_ret|]. split; [exact Hst|lia].
@@ -247,26 +237,19 @@ Qed.
 
 Lemma pop_ok k rest off q : st_inv k rest off q -> 1 <= qr_available q ->
   (k < length points)%nat ->
-  exists qs', pop_fronts (q_queues q) = Ok (nth k points [], qs') /\
+  exists qs', pop_fronts (q_proto q) (q_queues q) = Ok (nth k points [], qs') /\
               st_inv (S k) rest off (mkQr (q_proto q) (q_streams q) qs').
 Proof.
-  intros (ss & qs & -> & Hc & Hoff & Hok & Hi & Hatt) Hav Hk.
+  intros Hst Hav Hk. destruct (st_avail _ _ _ _ Hst) as [Hge _].
+  destruct Hst as (ss & qs & -> & Hc & Hoff & Hok & Hi).
   destruct (scene_ok_spec _ _ Hscene) as (_ & Hpts & _).
-  set (q0 := mkQr proto ss qs) in *.
-  assert (Hall : Forall (fun y => qr_available q0 <= len y) qs).
-  { apply Forall_forall. intros y Hy. apply avail_le. exact Hy. }
-  assert (Hne : Forall (fun y : list rvalue => y <> []) qs).
-  { revert Hall. apply Forall_impl. intros y Hy ->. rewrite qlen_nil in Hy. lia. }
-  destruct (inv5_pop _ _ _ _ _ _ _ Hi (cols_lt k Hk) Hne) as (vs & qs' & Hp & Hi' & HF1 & HF2).
+  cbn [q_queues q_proto q_streams] in *.
+  pose proof (sized_ge_nonempty _ _ (sized_ge_le _ 1 _ _ Hav Hge)) as Hne.
+  destruct (inv5_pop _ _ _ _ _ _ _ Hi (cols_lt k Hk) Hne) as (vs & qs' & Hp & Hi' & HF1).
   pose proof (popped_point proto points k vs Hpts Hk HF1) as ->.
-  exists qs'. unfold q0 at 1 2 3. cbn [q_queues q_proto q_streams]. split; [exact Hp|].
-  pose proof (attained_pop _ _ _ _ Hatt HF2) as Hatt'.
-  assert (Hall' : Forall (fun y => qr_available q0 - 1 <= len y) qs').
-  { revert Hall. apply Forall2_Forall_r with (R := fun q q' => len q = 1 + len q'); [|exact HF2].
-    intros a b Hab Ha. lia. }
-  pose proof (avail_char proto ss qs' _ Hall' Hatt') as Hav'.
+  exists qs'. split; [exact Hp|].
   exists ss, qs'. split; [reflexivity|]. split; [exact Hc|]. split; [exact Hoff|].
-  split; [exact Hok|]. split; [exact Hi'|]. rewrite Hav'. exact Hatt'.
+  split; [exact Hok|exact Hi'].
 Qed.
 
 Lemma fuel_enough k rest off q : st_inv k rest off q -> (length rest < refill_fuel (len log))%nat.
@@ -340,21 +323,44 @@ Theorem qr_decodes_any_layout :
 Proof.
   intros proto points lay pre post log fuel Hscene Hlegal Hlog Hpre Hpost Hfuel Hmod Hsz.
   destruct (legal_spec _ _ _ Hlegal) as [Hok _].
-  destruct (scene_ok_spec _ _ Hscene) as (_ & _ & Hex).
   destruct (raw_new_runs log pre lay post (length proto) (len points) proto Hlog Hpost Hok Hmod Hsz)
     as [Hr0 Hc0].
   set (q0 := mkQr proto (map (fun _ => bsr_new) proto) (map (fun _ => []) proto)) in *.
-  assert (Hav0 : qr_available q0 = 0).
-  { apply avail_char; [|apply attained_init; exact Hex].
-    apply Forall_forall. intros y _. lia. }
   assert (Hst : st_inv proto points log post 0 lay (len pre + 32) q0).
   { eexists _, _. split; [reflexivity|]. split; [exact Hc0|]. split; [lia|]. split; [exact Hok|].
-    split; [apply inv5_init; apply initial_lists; assumption|].
-    rewrite Hav0. apply attained_init. exact Hex. }
+    apply inv5_init; apply initial_lists; assumption. }
   destruct (collect_ok proto points log post Hscene (length points) 0 fuel lay _ q0 Hst
               ltac:(lia) Hfuel) as (off' & Hr).
   cbn [firstn] in Hr. change (N.of_nat 0) with 0 in Hr.
   pose proof (runs_bind _ _ (fun it => raw_collect fuel (len log) it []) _ _ _ _ _ Hr0 Hr) as H.
+  unfold runs in H. rewrite H. reflexivity.
+Qed.
+
+(** An empty point cloud: no seek to the data offset is made, so nothing need
+    follow the section ([post] may be empty and the section may end exactly at
+    the end of the stream); neither the prototype nor the alignment of the
+    section matter, and the packets of the layout (index, ignored, data
+    packets of empty chunks) are not read. *)
+Theorem qr_decodes_empty :
+  forall (proto : list dtype) (lay : layout) (pre post log : list N) (fuel : nat),
+  legal proto [] lay = true ->
+  log = pre ++ encode_section (phys_of_log (len pre + 32)) lay ++ post ->
+  (0 < fuel)%nat ->
+  len log mod 1020 = 0 -> phys_of_log (len log) < 2 ^ 64 ->
+  snd (rrun_spec log (rbind (raw_new (phys_of_log (len pre)) (len (@nil (list rvalue))) proto)
+                            (fun it => raw_collect fuel (len log) it [])) 0) = Ok [].
+Proof.
+  intros proto lay pre post log fuel Hlegal Hlog Hfuel Hmod Hsz.
+  destruct (legal_spec _ _ _ Hlegal) as [Hok _].
+  destruct (raw_new_runs_gen log pre lay post (length proto) (len (@nil (list rvalue))) proto Hlog
+              (or_introl eq_refl) Hok Hmod Hsz) as [Hr0 _].
+  destruct fuel as [|f]; [lia|].
+  assert (Hr : runs log (raw_collect (S f) (len log)
+                 (mkRaw (mkQr proto (map (fun _ => bsr_new) proto) (map (fun _ => []) proto))
+                        (len (@nil (list rvalue))) 0) []) (len pre + 32) (len pre + 32) []).
+  { cbn [raw_collect]. unfold raw_next. cbn [ri_records ri_read].
+    change (len (@nil (list rvalue)) <=? 0) with true. cbv iota. cbn [rbind]. apply runs_ret. }
+  pose proof (runs_bind _ _ (fun it => raw_collect (S f) (len log) it []) _ _ _ _ _ Hr0 Hr) as H.
   unfold runs in H. rewrite H. reflexivity.
 Qed.
 
@@ -405,4 +411,39 @@ Proof.
   cbv zeta. repeat split; try (vm_compute; reflexivity). discriminate.
 Qed.
 
+(** The empty point cloud: the section (header, an index packet, a data packet
+    of empty chunks, an ignored packet) ends exactly at the end of the stream. *)
+Module QrEmpty.
+  Definition lay : layout := [SIndex 16; SData [[]; []; []; []]; SIgnored 8].
+  Definition pre : list N := repeat 9 948%nat.
+  Definition log : list N := pre ++ encode_section (phys_of_log (len pre + 32)) lay ++ [].
+  Definition run (records : N) : res (list (list rvalue)) :=
+    snd (rrun_spec log (rbind (raw_new (phys_of_log (len pre)) records QrInstance.proto)
+                              (fun it => raw_collect 1 (len log) it [])) 0).
+End QrEmpty.
+
+Example qr_decodes_empty_instance :
+  len QrEmpty.log = 1020 /\ QrEmpty.run 0 = Ok [].
+Proof.
+  split; [vm_compute; reflexivity|].
+  apply (qr_decodes_empty QrInstance.proto QrEmpty.lay QrEmpty.pre []); vm_compute; reflexivity.
+Qed.
+
+(** A section without packets at the very end of the stream: its data offset
+    is the end of the stream, a seek there is rejected.  With no records the
+    seek is not made and the (empty) result is returned; claiming one record
+    makes the same stream fail. *)
+Example qr_decodes_empty_no_packets :
+  let pre := repeat 9 988%nat in
+  let log := pre ++ encode_section (phys_of_log (len pre + 32)) [] ++ [] in
+  let run records :=
+    snd (rrun_spec log (rbind (raw_new (phys_of_log (len pre)) records QrInstance.proto)
+                              (fun it => raw_collect 1 (len log) it [])) 0) in
+  len log = 1020 /\ run 0 = Ok [] /\ run 1 = Err ERead.
+Proof.
+  cbv zeta. split; [vm_compute; reflexivity|]. split; [|vm_compute; reflexivity].
+  apply (qr_decodes_empty QrInstance.proto [] (repeat 9 988%nat) []); vm_compute; reflexivity.
+Qed.
+
 Print Assumptions qr_decodes_any_layout.
+Print Assumptions qr_decodes_empty.
